@@ -64,8 +64,9 @@ impl<'a> G<'a> {
                 _ => json!(["n", self.rng.range(1, 9)]),
             };
         }
-        match self.rng.below(16) {
+        match self.rng.below(17) {
             14 | 15 => json!(["xduce", self.gen(depth - 1)]),
+            16 => json!(["spawn", self.gen(depth - 1)]),
             0 => json!(["add", self.gen(depth - 1), self.gen(depth - 1)]),
             1 => json!(["tr", self.id(), self.gen(depth - 1)]),
             2 | 3 => json!(["wind", self.id(), self.gen(depth - 1)]),
@@ -131,6 +132,10 @@ fn render(e: &Value) -> String {
         "apply" => format!("(apply (lambda (a) (+ a {})) (list 1))", render(&a[1])),
         "tail" => format!("((lambda () {}))", render(&a[1])),
         "gc" => format!("(begin (#%gc-collect) {})", render(&a[1])),
+        // a script thread is started and joined while the enclosing continuations
+        // are open and wind extents are entered (starting a thread copies the
+        // starter's state and closes its open continuation marks)
+        "spawn" => format!("(+ (- (thread-join! (spawn-native-thread (lambda () (+ 1 1)))) 2) {})", render(&a[1])),
         _ => "0".to_string(),
     }
 }
@@ -193,7 +198,7 @@ fn model(e: &Value, armed: i64, trace: &mut Vec<i64>) -> Result<i64, Unwind> {
             let y = model(&a[2], armed, trace)?;
             Ok(x + y)
         }
-        "hof" | "tail" | "gc" | "xduce" => model(&a[1], armed, trace),
+        "hof" | "tail" | "gc" | "xduce" | "spawn" => model(&a[1], armed, trace),
         "apply" => Ok(1 + model(&a[1], armed, trace)?),
         _ => Ok(0),
     }
@@ -283,6 +288,8 @@ impl Scenario for C08 {
                 "escape-from-nested-handler"
             } else if escape_crosses_native_callback(&tree, &mut Vec::new()) {
                 "escape-out-of-native-callback"
+            } else if escape_under_handler_in_callback_in_handler_body(&tree, &mut Vec::new()) {
+                "escape-under-handler-in-native-callback-in-handler-body"
             } else {
                 "general"
             };
@@ -313,6 +320,8 @@ impl Scenario for C08 {
                 "escape-from-nested-handler"
             } else if escape_crosses_native_callback(&tree, &mut Vec::new()) {
                 "escape-out-of-native-callback"
+            } else if escape_under_handler_in_callback_in_handler_body(&tree, &mut Vec::new()) {
+                "escape-under-handler-in-native-callback-in-handler-body"
             } else {
                 "general"
             };
@@ -524,6 +533,55 @@ fn escape_from_nested_handler(e: &Value, path: &mut Vec<(u8, i64)>) -> bool {
             r
         }
         _ => a.iter().skip(1).any(|c| c.is_array() && escape_from_nested_handler(c, path)),
+    }
+}
+
+/// Does the tree contain an escape out of the protected expression of a
+/// with-handler to a call/cc that lies inside a native callback (`xduce`) which
+/// itself runs inside the *body* of an outer handler? (recorded defect: the
+/// handler body runs under the meta-continuation of the outer with-handler and
+/// the callback re-enters the VM from Rust)
+fn escape_under_handler_in_callback_in_handler_body(e: &Value, path: &mut Vec<(u8, i64)>) -> bool {
+    let a = match e.as_array() {
+        Some(a) => a,
+        None => return false,
+    };
+    match a[0].as_str().unwrap_or("") {
+        "escape" => {
+            let c = a[1].as_i64().unwrap();
+            if let Some(pos) = path.iter().rposition(|p| p.0 == 1 && p.1 == c) {
+                let inner_handler = path[pos + 1..].iter().any(|p| p.0 == 0);
+                let body_pos = path[..pos].iter().position(|p| p.0 == 3);
+                let callback_in_body = match body_pos {
+                    Some(b) => path[b + 1..pos].iter().any(|p| p.0 == 2),
+                    None => false,
+                };
+                return inner_handler && callback_in_body;
+            }
+            false
+        }
+        "handle" => {
+            path.push((3, 0));
+            let in_body = escape_under_handler_in_callback_in_handler_body(&a[2], path);
+            path.pop();
+            path.push((0, 0));
+            let in_prot = escape_under_handler_in_callback_in_handler_body(&a[3], path);
+            path.pop();
+            in_body || in_prot
+        }
+        "xduce" => {
+            path.push((2, 0));
+            let r = escape_under_handler_in_callback_in_handler_body(&a[1], path);
+            path.pop();
+            r
+        }
+        "callcc" => {
+            path.push((1, a[1].as_i64().unwrap()));
+            let r = escape_under_handler_in_callback_in_handler_body(&a[2], path);
+            path.pop();
+            r
+        }
+        _ => a.iter().skip(1).any(|c| c.is_array() && escape_under_handler_in_callback_in_handler_body(c, path)),
     }
 }
 
